@@ -250,3 +250,35 @@ theorem C03_blocked_old_enter_loses_wake :
   exact ⟨h.1, h.2.1, h.2.2.2.1, h.2.2.2.2.2.1, h.2.2.2.2.2.2.1, h.2.2.2.2.2.2.2⟩
 
 end A10.Blocked
+
+/-! ### What (b) does not promise: a poll that never returns
+
+The wake pass runs after `io_uring_enter` has returned. The theorems above therefore speak about
+`Ring::poll` calls that return. The state below is reachable (three operations on a queue of one
+entry; the future that was woken for the freed slot is dropped without using it): a future is still
+on the blocked list, a slot is free, nothing is queued, nothing has completed — a `Ring::poll(None)`
+would now wait in the kernel for the completion of the one operation in flight. Recorded as an
+observation in DESIGN.md §10.3; with a timeout the poll returns and `C03_blocked_progress` applies. -/
+
+namespace A10.Life
+
+def idleWitness : Sys :=
+  let s : Sys := { sqLen := 1, cqLen := 2,
+                   ops := [{ multi := false }, { multi := false }, { multi := false }],
+                   opc := ["READ", "READ", "READ"] }
+  let s := (s.poll 0 10).1        -- submitted
+  let s := (s.poll 1 11).1        -- queue full: blocked
+  let s := (s.poll 2 12).1        -- queue full: blocked
+  let s := (s.rpoll []).1         -- the kernel consumes the submission; ONE slot, ONE future woken
+  (s.dropOp 1).1                  -- …which is dropped without using the slot
+
+theorem C03_blocked_idle_witness :
+    idleWitness.blocked = [12] ∧ idleWitness.sqRoom = true ∧ idleWitness.sq = [] ∧
+    idleWitness.cq = [] ∧ idleWitness.overflow = [] ∧ idleWitness.inflight = [0] := by
+  decide
+
+/-- …and the next poll that returns (whatever the kernel answers) wakes it. -/
+theorem C03_blocked_idle_next_poll : ((afterEnter idleWitness []).wakeBlocked).2 = [12] := by
+  decide
+
+end A10.Life
